@@ -871,8 +871,8 @@ func mainC10() {
 			if !s.Mine(idx) {
 				return
 			}
-			if pl.tooManyDeaths(150) {
-				w.Capped("worker stopped after 150 executor deaths; the remaining cases of this shard were not run")
+			if pl.tooManyDeaths(400) {
+				w.Capped("worker stopped after 400 executor deaths; the remaining cases of this shard were not run")
 				return
 			}
 			var o c10Obs
